@@ -28,14 +28,14 @@ META = {
         'row in write/append is protect(e) or a brace-wrapped join of protect(x); C01.PROTECT-PRED - protect quotes '
         'when the text is empty, contains # or matches a whitespace regex (re.search, class covers blank and tab); '
         'C01.NO-MEMO - protect is not memoised by value equality (0.0 == -0.0); C01.COLORDER - the returned column '
-        'list and the typedef lines iterate the same sequence; C01.STRWIDTH - type code, array length and string width of a column come from the same dtype level; C01.CONT - the continuation-joining pattern of the reader consumes only the backslash, trailing blanks and the newline (nothing of the cells around it); C01.CASE - tables are registered and dispatched under '
+        'list and the typedef lines iterate the same sequence; C01.STRWIDTH - type code, array length and string width of a column come from the same dtype level; C01.ZERO-ROW - the record arrays are filled in a way that also works for tables without rows; C01.CONT - the continuation-joining pattern of the reader consumes only the backslash, trailing blanks and the newline (nothing of the cells around it); C01.CASE - tables are registered and dispatched under '
         '.upper() keys; C01.INTCONV - integer cells are converted by int() directly on the token, floats by float(); '
         'C01.PAIRS - pairs() is all keys minus tables(), tables() is all symbols minus {struct, enum}; C01.ENTRY - the '
         'Table entry points reach the file only through write_ndarray_to_yanny / yanny.__init__ and pass table.meta. '
         'NOT decided: that str(value) -> float()/int() is lossless for every value, that get_token/trailing_comment '
         'invert protect for every string, zero-row behaviour, header text equality, enum round trip.'),
     'floors': {'C01.TYPEMAP': 4, 'C01.REFUSE': 2, 'C01.PROTECT-FLOW': 4, 'C01.PROTECT-PRED': 3, 'C01.COLORDER': 1,
-               'C01.CASE': 4, 'C01.INTCONV': 4, 'C01.PAIRS': 2, 'C01.ENTRY': 3, 'C01.NO-MEMO': 1, 'C01.STRWIDTH': 1, 'C01.CONT': 1},
+               'C01.CASE': 4, 'C01.INTCONV': 4, 'C01.PAIRS': 2, 'C01.ENTRY': 3, 'C01.NO-MEMO': 1, 'C01.STRWIDTH': 1, 'C01.CONT': 1, 'C01.ZERO-ROW': 1},
 }
 
 CANON = {'f': 'f4', 'd': 'f8', 'f4': 'f4', 'f8': 'f8', 'i2': 'i2', 'i4': 'i4', 'i8': 'i8', 'h': 'i2', 'i': 'i4', 'l': 'i8', 'q': 'i8',
@@ -349,6 +349,20 @@ def check_strwidth(ctx, yc):
                   '(S6, (3,)) is declared char[3][18] and reads back with another type' % (bad[0] if bad else ('', '')), construct='string width level: %s' % (bad[:1],))
 
 
+def check_zero_row(ctx, yc):
+    """Filling the record array from the parsed column lists must work for a table without rows: an empty list cannot be broadcast into
+    an (0, k) array column, so the store is guarded by the row count or the value is shaped explicitly."""
+    f = yc.method('_parse')
+    fills = [st for st in walk_local(f.node) if isinstance(st, ast.Assign) and isinstance(st.targets[0], ast.Subscript) and src(st.targets[0].value) == 'record']
+    ctx.need(fills, '_parse: record fill not found')
+    for st in fills:
+        guarded = any(isinstance(a, ast.If) and ('size' in src(a.test) or 'len(' in src(a.test)) and '0' in src(a.test) for a in ancestors(st))
+        shaped = any(isinstance(c, ast.Call) and call_name(c) in ('reshape', 'array', 'asarray') for c in ast.walk(st.value))
+        ctx.check('C01.ZERO-ROW', guarded or shaped, f, st, 'the record fill `%s` is safe for a table without rows' % src(st)[:50],
+                  msg='`%s` assigns the parsed column list unconditionally: for a zero-row table with an array column the empty list cannot be broadcast into '
+                      'shape (0, k) and reading the file back raises ValueError' % src(st)[:60], construct='record fill ' + src(st)[:60])
+
+
 def upper_derived(e, fa, depth=0):
     e0 = e
     if isinstance(e, ast.Call) and call_name(e) == 'upper':
@@ -501,6 +515,7 @@ def run(ctx):
     check_protect_pred(ctx, yc)
     check_colorder(ctx, yc)
     check_strwidth(ctx, yc)
+    check_zero_row(ctx, yc)
     from .c02 import check_cont
     sub = type(ctx)(ctx.prop, ctx.repo, ctx.tier)
     check_cont(sub, yc)
